@@ -237,6 +237,16 @@ func Check(sys System, traces []Trace, workDir string) (*Verdict, string, error)
 // used when the generated Go reported an assertion failure at that label from that state:
 // the specification must fail there too.
 func AssertionFails(sys System, pre State, action, self, workDir string) (bool, string, error) {
+	fails, out, err := assertionFails(sys, pre, action+"("+self+")", workDir)
+	if err != nil && strings.Contains(out, "requires 0 arguments") {
+		// a single process (process (P = Id)): its actions take no self parameter
+		os.RemoveAll(workDir)
+		return assertionFails(sys, pre, action, workDir)
+	}
+	return fails, out, err
+}
+
+func assertionFails(sys System, pre State, actionExpr, workDir string) (bool, string, error) {
 	if err := os.MkdirAll(workDir, 0o755); err != nil {
 		return false, "", err
 	}
@@ -272,7 +282,7 @@ func AssertionFails(sys System, pre State, action, self, workDir string) (bool, 
 		}
 		fmt.Fprintf(&b, "/\\ %s = %s\n", v, e)
 	}
-	fmt.Fprintf(&b, "\nANext == %s(%s)\n", action, self)
+	fmt.Fprintf(&b, "\nANext == %s\n", actionExpr)
 	b.WriteString(sys.Extra)
 	b.WriteString("\n====\n")
 	if err := os.WriteFile(filepath.Join(workDir, mod+".tla"), []byte(b.String()), 0o644); err != nil {
